@@ -61,7 +61,8 @@ Inductive policy_msg :=
 | PUpdatePmtpParams (gov : dec_field) (epoch_len start end_ : Z)
 | PModifyPmtpRates (block running : dec_field) (end_policy : bool)
 | PUpdateLPParams (max epoch : Z) (active : bool)
-| PModifyLPRates (current : Z).
+| PModifyLPRates (current : Z)
+| PUpdateSwapFee (default : Z) (token_rates : list Z).     (* Dec; the per-token overrides' rates *)
 
 (* ---------- MsgAddRewardPeriodRequest ---------- *)
 Definition mult_ok (m : Z * option Z) : bool :=
@@ -130,6 +131,10 @@ Definition modify_lp_rates (s : policy_state) (current : Z) : Outcome policy_sta
   if lps_max (pol_lp s) <? current then Err 5 else
   Ok (s <| pol_lp := pol_lp s <| lps_current := current |> |>).
 
+(* ---------- MsgUpdateSwapFeeParamsRequest: the default rate and every per-token rate lie in [0,1] (the rates themselves are
+   part of the AMM state, not of the policy state) ---------- *)
+Definition fee_rate_ok (r : Z) : bool := (0 <=? r) && (r <=? PREC).
+
 Definition policy_handle (s : policy_state) (m : policy_msg) : Outcome policy_state :=
   match m with
   | PAddRewardPeriods ps => if forallb rp_valid ps then Ok (s <| pol_rewards := map rp_of_msg ps |>) else Err 1
@@ -138,6 +143,7 @@ Definition policy_handle (s : policy_state) (m : policy_msg) : Outcome policy_st
   | PModifyPmtpRates b r e => modify_pmtp_rates s b r e
   | PUpdateLPParams mx ep a => update_lp_params s mx ep a
   | PModifyLPRates c => modify_lp_rates s c
+  | PUpdateSwapFee d rs => if fee_rate_ok d && forallb fee_rate_ok rs then Ok s else Err 1
   end.
 (* a failing (or panicking) message leaves the policy state as it was *)
 Definition policy_deliver (s : policy_state) (m : policy_msg) : policy_state * bool :=
